@@ -68,6 +68,16 @@ def eval_term(tm, leaf: t.Callable[[tuple], t.Any]):
         return tuple(eval_term(x, leaf) for x in tm[1])
     if tag == "set":
         return frozenset(eval_term(x, leaf) for x in tm[1])
+    if tag == "item":
+        try:
+            return leaf(tm)
+        except AnalysisError:
+            return eval_term(tm[1], leaf)[eval_term(tm[2], leaf)]
+    if tag == "slice":
+        base = eval_term(tm[1], leaf)
+        lo = eval_term(tm[2], leaf) if tm[2] is not None else None
+        hi = eval_term(tm[3], leaf) if tm[3] is not None else None
+        return base[lo:hi]
     if tag == "call" and tm[1] == ("ext", "len") and len(tm[2]) == 1:
         return len(eval_term(tm[2][0], leaf))
     if tag == "call" and tm[1] == ("ext", "bool") and len(tm[2]) == 1:
